@@ -295,7 +295,9 @@ type c23Env struct {
 	leaked   int // subjects that never stopped (only after a violation was reported)
 }
 
-func (env *c23Env) quiet(extra int) bool { return runtime.NumGoroutine() <= env.baseline+env.leaked+extra }
+func (env *c23Env) quiet(extra int) bool {
+	return runtime.NumGoroutine() <= env.baseline+env.leaked+extra
+}
 
 // waitQuiet: usually a matter of microseconds, so yield first, sleep later.
 func (env *c23Env) waitQuiet(extra int, d time.Duration) bool {
